@@ -45,6 +45,9 @@ def cases(tier, seed):
         if not rev and n >= 3 and extra == 0:
             # first release two steps after the start: the first scheduled records hold no particle at all
             out.append(dict(mode="group", nsteps=n, period=p, layout=layout, pvars=pv, rev=rev, extra=extra, numrecs=b["numrec"][:3], protos=protos[:1], late=True))
+        if n >= 4 and extra == 0 and not pv:
+            # every particle is dead after the second step and nothing more is released: the remaining scheduled records are still due (empty)
+            out.append(dict(mode="group", nsteps=n, period=p, layout=layout, pvars=pv, rev=rev, extra=extra, numrecs=b["numrec"][:3], protos=protos[:1], late=False, dieout=True))
     return out
 
 
@@ -68,8 +71,13 @@ def one_run(case, numrec, proto):
     stop = S0 + sgn * (n * DT + case["extra"])
     first = 2 if case.get("late") else 0
     rows = [dict(release_time=world.iso(S0 + first * DT), X=3.0, Y=4.0, Z=1.0, weight=2.5), dict(release_time=world.iso(S0 + first * DT), X=5.0, Y=6.0, Z=1.0, weight=3.5)]
-    if not rev and n > 3:
+    third = not rev and n > 3 and not case.get("dieout")
+    if third:
         rows.append(dict(release_time=world.iso(S0 + 3 * DT), X=7.0, Y=5.0, Z=2.0, weight=4.5))
+    if case.get("dieout"):
+        kw_ibm = dict(ibm=dict(module=drive.plug("sibm.py"), kills={"1": [0, 1]}))
+    else:
+        kw_ibm = {}
     outvars = ("pid", "X", "Y")
     kw = {}
     if case["pvars"]:
@@ -79,9 +87,9 @@ def one_run(case, numrec, proto):
         for r in rows:
             r.pop("weight")
     conf = drive.analytic_conf(d, S0, stop, DT, rows, outvars=outvars, period=P * DT, numrec=numrec, layout=case["layout"],
-                               field="const", params=dict(a=0.25 / DT, b=0.125 / DT, L=100.0), reversed_=rev, filename=proto, **kw)
+                               field="const", params=dict(a=0.25 / DT, b=0.125 / DT, L=100.0), reversed_=rev, filename=proto, **kw, **kw_ibm)
     sub = dict(case, mode="single", numrec=numrec, proto=proto)
-    tag = f"N={n} P={P} numrec={numrec} {case['layout']} pvars={case['pvars']} rev={rev} extra={case['extra']} proto={proto} late={case.get('late', False)}"
+    tag = f"N={n} P={P} numrec={numrec} {case['layout']} pvars={case['pvars']} rev={rev} extra={case['extra']} proto={proto} late={case.get('late', False)}{' dieout' if case.get('dieout') else ''}"
     try:
         drive.run_main(conf, d)
     except drive.RunFailed as e:
@@ -111,14 +119,15 @@ def one_run(case, numrec, proto):
     exp_times = [float(S0 + sgn * s * DT) for s in due]
     if times != exp_times:
         v.append(util.viol("records:times", f"{tag}: times-S0 {[t - S0 for t in times]} expected {[t - S0 for t in exp_times]}", sub))
-    released = lambda s: (2 if s >= first else 0) + (1 if (not rev and n > 3 and s >= 3) else 0)  # noqa: E731
+    released = lambda s: (2 if s >= first else 0) + (1 if (third and s >= 3) else 0)  # noqa: E731
+    living = released if not case.get("dieout") else (lambda s: 2 if s <= 1 else 0)  # the IBM kills both particles in the step that starts at step 1
     if case["layout"] == "sparse":
         for f in out["files"]:
             if f["n_instance"] != f["sum_count"]:
                 v.append(util.viol("records:counts", f"{tag}: {f['name']} sum(count)={f['sum_count']} instance dim={f['n_instance']}", sub))
         for r, s in zip(out["records"], due):
-            if r["count"] != released(s):
-                v.append(util.viol("records:counts", f"{tag}: record at step {s} has {r['count']} particles expected {released(s)}", sub))
+            if r["count"] != living(s):
+                v.append(util.viol("records:counts", f"{tag}: record at step {s} has {r['count']} particles expected {living(s)}", sub))
                 break
     if case["pvars"]:
         allw = [2.5, 3.5, 4.5]
